@@ -151,6 +151,7 @@ pub fn prop() -> Prop {
         assumptions: &["tolerance 1e-9 * scale"],
         post: None,
         watchdog_s: 240,
+        hang_is_violation: false,
         shrink_iters: 300,
     }
 }
